@@ -1,7 +1,7 @@
 (* C08 — executable checkers run on what the implementation was observed to do.
    *_model_ok : the model (with the configuration extracted from the source) computes the same (correspondence)
    *_prop_ok  : the implementation's own output satisfies the property (oracle = Spec.v)       *)
-From G08 Require Export Cfg Spec.
+From G08 Require Export Cfg Spec ConnOps.
 Open Scope N_scope.
 
 Definition addr_eqb (x y : addr) : bool :=
@@ -210,4 +210,75 @@ Definition ecase_model_ok (c : ecase) : bool :=
       | Ok _ rest => if str_eqb rest (e_req c) then (e_status c =? 200) && ostr_eqb (e_xff c) (Some (a_ip ad)) else true
       | Err _ _ => (e_status c =? 0) && e_closed c
       end
+  end.
+
+
+(* ---- operation sequences on one proxyproto.Conn over a segmenting net.Conn (ConnOps.v) *)
+Record ocase := {
+  oc_chunks : list str;                (* the TCP segments the socket delivers *)
+  oc_sock_r : addr; oc_sock_l : addr;  (* what the wrapped connection reports *)
+  oc_ops : list op;                    (* the calls made, in order *)
+  oc_obs : list obsv                   (* what each call returned *)
+}.
+
+Definition obsv_eqb (x y : obsv) : bool :=
+  match x, y with
+  | ORead d e, ORead d' e' => str_eqb d d' && Bool.eqb e e'
+  | OWrote, OWrote | OErr, OErr => true
+  | OAddr a, OAddr c => oaddr_eqb a c
+  | OHdr h, OHdr h' => header_eqb h h'
+  | _, _ => false
+  end.
+Fixpoint obs_eqb (x y : list obsv) : bool :=
+  match x, y with
+  | [], [] => true
+  | a :: x', c :: y' => obsv_eqb a c && obs_eqb x' y'
+  | _, _ => false
+  end.
+
+Definition ocase_model_ok (c : ocase) : bool :=
+  obs_eqb (map snd (snd (run src_cfg (oc_sock_r c) (oc_sock_l c) (oc_ops c) (cinit (oc_chunks c))))) (oc_obs c).
+
+Definition goodb (a : adv) (sr sl : addr) (o : op) (b : obsv) : bool :=
+  match o, b with
+  | OpRead _, ORead _ _ => true
+  | OpWrite, OWrote => true
+  | OpRemote, OAddr x => oaddr_eqb x (adv_remote a sr)
+  | OpLocal, OAddr x => oaddr_eqb x (adv_local_addr a sl)
+  | OpHeader, OHdr h => adv_matches a h
+  | _, _ => false
+  end.
+Definition failedb (sr sl : addr) (o : op) (b : obsv) : bool :=
+  match o, b with
+  | OpRemote, OAddr x => oaddr_eqb x (Some sr)
+  | OpLocal, OAddr x => oaddr_eqb x (Some sl)
+  | OpRemote, _ | OpLocal, _ => false
+  | _, OErr => true
+  | _, _ => false
+  end.
+Fixpoint all2 {A B} (f : A -> B -> bool) (x : list A) (y : list B) : bool :=
+  match x, y with
+  | [], [] => true
+  | a :: x', c :: y' => f a c && all2 f x' y'
+  | _, _ => false
+  end.
+Fixpoint read_bytes (obs : list obsv) : str :=
+  match obs with ORead d _ :: r => d ++ read_bytes r | _ :: r => read_bytes r | [] => [] end.
+Definition saw_eof (obs : list obsv) : bool := existsb (fun b => match b with ORead _ true => true | _ => false end) obs.
+
+(* 0 ok; 1 a call failed / reported another address although the header is well formed; 2 the bytes read are not a
+   prefix of the payload (lost, reordered, or header bytes leaked); 3 EOF was reported before the whole payload was read;
+   4 no well-formed header, yet a call succeeded or reported other addresses; 5 ... or delivered bytes *)
+Definition ocase_verdict (c : ocase) : N :=
+  let bs := concat (oc_chunks c) in
+  match spec_find bs with
+  | Some (a, n) =>
+      let payload := skipn n bs in
+      let got := read_bytes (oc_obs c) in
+      if negb (all2 (goodb a (oc_sock_r c) (oc_sock_l c)) (oc_ops c) (oc_obs c)) then 1
+      else if negb (str_eqb got (firstn (length got) payload)) then 2
+      else if saw_eof (oc_obs c) && negb (Nat.eqb (length got) (length payload)) then 3 else 0
+  | None =>
+      if negb (all2 (failedb (oc_sock_r c) (oc_sock_l c)) (oc_ops c) (oc_obs c)) then 4
+      else match read_bytes (oc_obs c) with [] => 0 | _ => 5 end
   end.
